@@ -351,9 +351,9 @@ var bytesUnits = map[string]float64{
 
 var bytesRe = regexp.MustCompile(`^([0-9]+(?:\.[0-9]+)?) ?([A-Za-z]*)$`)
 
-// oddBytesRe: digits, dots and commas in front of an optional unit - but not in the one shape
-// bytesRe fixes.
-var oddBytesRe = regexp.MustCompile(`^[0-9.,]+ *[A-Za-z]*$`)
+// oddBytesRe: digits, dots and commas in front of an optional unit, blanks (a trailing carriage
+// return, say) around them - but not in the one shape bytesRe fixes.
+var oddBytesRe = regexp.MustCompile(`^\s*[0-9.,]+\s*[A-Za-z]*\s*$`)
 
 // ParseBytes is the harness's own SI/IEC byte-size table. ok=false means "not a byte size".
 func ParseBytes(s string) (uint64, bool) {
